@@ -1401,6 +1401,64 @@ M.contract(P_EX + ':execute',
            raises_only=())
 
 
+# ====================================================================================== validated order = executed order
+# "A symbol is visible to exactly the instructions that follow its definition in EXECUTION order ... any violation is
+# reported as VALIDATION_ERROR before anything executes": the validation of the symbol usages (one growing table
+# over the phases) predicts the execution only if the phases it goes through are the phases that are executed, in
+# the same order.  Stated on the executor: when no step fails, the phases whose symbol usages were validated are
+# the phases whose main step runs.  (Carries C08 only; stated here because it is a statement about the protocol of this module.)
+
+_PHASE_OF_SYMBOL_STEP = {S.SETUP__VALIDATE_SYMBOLS: 'setup', S.ACT__VALIDATE_SYMBOLS: 'act',
+                         S.BEFORE_ASSERT__VALIDATE_SYMBOLS: 'before-assert',
+                         S.ASSERT__VALIDATE_SYMBOLS: 'assert', S.CLEANUP__VALIDATE_SYMBOLS: 'cleanup'}
+_PHASE_OF_MAIN_STEP = {S.SETUP__MAIN: 'setup', S.ACT__EXECUTE: 'act',
+                       S.BEFORE_ASSERT__MAIN: 'before-assert', S.ASSERT__MAIN: 'assert',
+                       S.CLEANUP__MAIN: 'cleanup'}
+
+
+def validated_phases_are_the_executed_ones(steps):
+    if any([failed(s) for s in steps]):
+        return True
+    validated = [_PHASE_OF_SYMBOL_STEP[s[0]] for s in steps if s[0] in _PHASE_OF_SYMBOL_STEP]
+    executed = [_PHASE_OF_MAIN_STEP[s[0]] for s in steps if s[0] in _PHASE_OF_MAIN_STEP]
+    return validated == executed
+
+
+_ACT_ONLY_REPLAY = '''
+import subprocess, tempfile, pathlib
+import exactly_lib
+runner = pathlib.Path(exactly_lib.__file__).parent.parent / 'default-main-program-runner.py'
+case = ('[act]\\n$ true\\n[assert]\\ndef string t = x\\n[cleanup]\\n'
+        'file @[EXACTLY_TMP]@/@[t]@.txt = "@[t]@"\\n')
+with tempfile.TemporaryDirectory() as d:
+    d = pathlib.Path(d)
+    (d / 'c.case').write_text(case)
+    out = {}
+    for option in ((), ('--act',)):
+        p = subprocess.run([sys.executable, '-W', 'ignore', str(runner)] + list(option) + ['c.case'], cwd=str(d),
+                           capture_output=True, text=True, env=dict(os.environ, PYTHONPATH=str(runner.parent)))
+        out[option] = (p.returncode, (p.stdout + p.stderr).split('\\n')[0])
+        print(option or '(all phases)', out[option])
+if out[()] == (0, 'PASS') and out[('--act',)][0] == 129:
+    print('--act validates the symbols of all five phases but executes setup, act, cleanup: [cleanup] refers to a '
+          'symbol that the skipped [assert] defines -- accepted by the validation, INTERNAL_ERROR when it runs')
+    sys.exit(1)
+sys.exit(0)
+'''
+
+def execute_as_seen_by_the_symbols(executor):
+    """Harness: the execution of the partial executor (its body is interpreted: contract `inline` of C01)"""
+    return executor.execute()
+
+
+M.contract('contracts.C01_protocol:execute_as_seen_by_the_symbols', props=('C08',),
+           params=dict(executor=_mk_partial_executor('initial')),
+           cover=False, replay=lambda model, rf: _ACT_ONLY_REPLAY,
+           ensures={'the phases whose symbol usages are validated are the phases that are executed, in that order':
+                    lambda trace: validated_phases_are_the_executed_ones(steps_of(trace))},
+           may_raise=(OSError,))
+
+
 @M.check('constants')
 def _constants(ctx):
     """The "integer values must correspond" comments of the three enums, as finite obligations
